@@ -4,6 +4,7 @@ import FxVerif.Proofs.C04Wd
 import FxVerif.Proofs.C04Claims
 import FxVerif.Proofs.C04Ibc
 import FxVerif.Proofs.C04Back
+import FxVerif.Proofs.C04Handler
 import FxVerif.Gen.C04
 /-!
 # C04 — bridge solvency: holdings + in-flight = initial + deposits − executed withdrawals; operations move only what
@@ -925,6 +926,208 @@ theorem delete_after_handle_credits_twice :
      | .ok bad, .ok good =>
        decide (creditedFor bad 0 7 1 = 15 ∧ claimedFor bad 0 7 1 = 5 ∧ bad.base.L.bal (.erc 1) (U 4) = 15 ∧
          creditedFor good 0 7 1 = 5 ∧ good.base.L.bal (.erc 1) (U 4) = 5)
+     | _, _ => false) = true := by decide
+
+
+/-! ### round 4: the inbound bridge-call handler, the refund of an outgoing call, `msg.value` — interpreted statement lists -/
+
+open FxVerif.Gen.C04 in
+/-- translator tie: the statement lists the model interprets are the ones read off the Go AST now — `BridgeCallHandler` (every
+money-moving statement with the context it writes to and the party it names, callee parameters resolved through
+`BridgeCallEvm` / `BridgeCallFailedRefund` / `AddOutgoingBridgeCall`), `HandleOutgoingBridgeCallRefund`, the two per-coin
+branches of `bridgeCallTransferTokens`, and the batch the cancel loop of `OutgoingTxBatchExecuted` hands to
+`CancelOutgoingTxBatch` (the ITERATED one) -/
+theorem handler_steps_match_code :
+    bridgeCallHandler_steps = handlerSteps ∧
+    handleRefund_steps = [.transferCoins .refund, .returnIfFromMsg, .transferTokens .refund .refund] ∧
+    transferTokens_fx_steps = [.skipIfSame, .sendCoins .sender .receiver] ∧
+    transferTokens_other_steps = [.convertCoin .sender .receiver] ∧
+    executedCancelArg = cancelArg := ⟨rfl, rfl, rfl, rfl, rfl⟩
+
+/-- **an inbound bridge call whose EVM part succeeds, as the code runs it, IS the model's `bcin`**: for every configuration,
+chain, receiver, token list and refund address, interpreting the regenerated statement list of `BridgeCallHandler` with a
+succeeding EVM part leaves exactly the ledger flow of the operation `bcin` (credit loop on the outer context, ERC-20
+conversion inside the cache context, committed) and records no outgoing call; it fails exactly when `bcin` has no flow. -/
+theorem inbound_call_success_follows_code (cfg : Cfg) (s : State) (c to : Nat) (tokens : List (Nat × Nat)) (refund : Addr) :
+    handlerFlow cfg c tokens ⟨U to, refund⟩ true FxVerif.Gen.C04.bridgeCallHandler_steps =
+      (match opFlow cfg s (.bcin c to tokens) with
+       | .ok fl => .ok (fl, none)
+       | .error e => .error e) := by
+  have hs : FxVerif.Gen.C04.bridgeCallHandler_steps = handlerSteps := rfl
+  rw [hs]
+  simp only [handlerFlow, handlerSteps, runHandler, HEnv.addr, HSt.write, opFlow, bind, Except.bind, pure, Except.pure,
+    ↓reduceIte, Bool.false_eq_true]
+  cases tokensFlow cfg c tokens (fun k g n => bridgeTokenToBaseCoin k g c (U to) n) with
+  | error e => rfl
+  | ok fl1 =>
+    simp only []
+    cases pairsFlow cfg tokens (fun k g n => convertCoin k g (U to) (U to) n) with
+    | error e => rfl
+    | ok fl2 => simp
+
+
+/-- the flow of a FAILING inbound bridge call in source order: credit loop (receiver = the failing contract), the EVM part is
+dropped with the cache context, hand-over to the refund address, outgoing refund call of the refund address -/
+def failFlowInOrder (cfg : Cfg) (c r : Nat) (tokens : List (Nat × Nat)) : Except Err (List Prim) := do
+  let cr ← tokensFlow cfg c tokens (fun k g n => bridgeTokenToBaseCoin k g c badContract n)
+  let ho ← tokensFlow cfg c tokens (fun _ g n => [.send (.base g) badContract (U r) n])
+  let wd ← tokensFlow cfg c tokens (fun k g n => baseCoinToBridgeToken k g c (U r) n)
+  pure (cr ++ ho ++ wd)
+
+/-- **a failing inbound bridge call, as the code runs it**: interpreting the regenerated statement list with a failing EVM
+part (receiver = the failing contract, refund address = user `r`) leaves exactly: the credit loop to the receiver (it was
+written on the OUTER context and survives), nothing of the EVM part (the cache context is dropped), the hand-over of
+every credited coin from the receiver to the refund address, and the outgoing refund call — every coin leaves the REFUND
+address through `BaseCoinToBridgeToken`, recorded with sender = refund = `r`. -/
+theorem inbound_call_failure_follows_code (cfg : Cfg) (c r : Nat) (tokens : List (Nat × Nat)) :
+    handlerFlow cfg c tokens ⟨badContract, U r⟩ false FxVerif.Gen.C04.bridgeCallHandler_steps =
+      (match failFlowInOrder cfg c r tokens with
+       | .ok fl => .ok (fl, some (U r, U r))
+       | .error e => .error e) := by
+  have hs : FxVerif.Gen.C04.bridgeCallHandler_steps = handlerSteps := rfl
+  have hne : (badContract == U r) = false := by simp [badContract, U]
+  rw [hs]
+  simp only [handlerFlow, handlerSteps, runHandler, HEnv.addr, HSt.write, failFlowInOrder, bind, Except.bind, pure, Except.pure,
+    ↓reduceIte, Bool.false_eq_true, hne, Bool.and_false]
+  cases tokensFlow cfg c tokens (fun k g n => bridgeTokenToBaseCoin k g c badContract n) with
+  | error e => rfl
+  | ok fl1 =>
+    simp only []
+    cases tokensFlow cfg c tokens (fun _ g n => [Prim.send (.base g) badContract (U r) n]) with
+    | error e => rfl
+    | ok fl2 =>
+      simp only []
+      cases tokensFlow cfg c tokens (fun k g n => baseCoinToBridgeToken k g c (U r) n) with
+      | error e => rfl
+      | ok fl3 => simp
+
+
+/-- **… and that IS the model's `bcinfail`**: for every configuration, state, chain, refund address and token list, the flow
+in source order exists iff the operation `bcinfail` has a flow, and then EVERY linear observable of the ledger (any
+account's balance of any asset, any supply, `held`, holdings, escrows, backing: `Obs`) changes by the same amount along
+both — the code runs three loops one after the other, the model interleaves credit and hand-over per token; for a claim with
+one token the two flows are the same list.  So `op_moves_only_what_it_says`, `conservation`, `escrow_exact`,
+`moduleOwned_backing` for `bcinfail` are statements about the handler as written. -/
+theorem failing_inbound_call_is_bcinfail (cfg : Cfg) (s : State) (c r : Nat) (tokens : List (Nat × Nat)) :
+    (match failFlowInOrder cfg c r tokens, opFlow cfg s (.bcinfail c r tokens) with
+     | .ok x, .ok y => ∀ o : Obs, o.flowDelta x = o.flowDelta y
+     | .error _, .error _ => True
+     | _, _ => False) ∧
+    (∀ g n, failFlowInOrder cfg c r [(g, n)] = opFlow cfg s (.bcinfail c r [(g, n)])) := by
+  constructor
+  · have h1 := tokensFlow_split cfg c (fun k g n => bridgeTokenToBaseCoin k g c badContract n)
+      (fun _ g n => [Prim.send (.base g) badContract (U r) n]) tokens
+    have h2 := tokensFlow_split cfg c (fun k g n => bridgeTokenToBaseCoin k g c badContract n)
+      (fun k g n => baseCoinToBridgeToken k g c (U r) n) tokens
+    simp only [failFlowInOrder, opFlow, bind, Except.bind, pure, Except.pure]
+    revert h1 h2
+    cases tokensFlow cfg c tokens (fun k g n => bridgeTokenToBaseCoin k g c badContract n ++ [Prim.send (.base g) badContract (U r) n]) <;>
+      cases tokensFlow cfg c tokens (fun k g n => bridgeTokenToBaseCoin k g c badContract n) <;>
+      cases tokensFlow cfg c tokens (fun _ g n => [Prim.send (.base g) badContract (U r) n]) <;>
+      cases tokensFlow cfg c tokens (fun k g n => baseCoinToBridgeToken k g c (U r) n) <;>
+      cases tokensFlow cfg c tokens (fun k g n => bridgeTokenToBaseCoin k g c badContract n ++ baseCoinToBridgeToken k g c (U r) n) <;>
+      simp only [] <;> intro h1 h2 <;> first | trivial | exact h1.elim | exact h2.elim | skip
+    intro o
+    rw [flowDelta_append, flowDelta_append, flowDelta_append, h1 o]
+  · intro g n
+    simp only [failFlowInOrder, opFlow, tokensFlow_single, bind, Except.bind, pure, Except.pure]
+    cases bridged cfg g c <;> simp
+
+
+open FxVerif.Gen.C04 in
+/-- **the refund of an outgoing bridge call, as the code runs it, IS the model's `refundFlow`** (operations `bcresult` with
+failure and `bctimeout`): interpreting the regenerated statements of `HandleOutgoingBridgeCallRefund` — `bridgeCallTransferCoins`
+to the refund address, `return` when the call came from a message, else `bridgeCallTransferTokens(refund, refund)` with its
+regenerated per-coin branches (FX: skipped because sender = receiver; other coins: `ConvertCoin` back into the ERC-20) — gives
+exactly `refundFlow`, for every configuration, chain and stored call -/
+theorem outgoing_refund_follows_code (cfg : Cfg) (c : Nat) (call : OutCall) :
+    runRefund cfg c call transferTokens_fx_steps transferTokens_other_steps handleRefund_steps [] = refundFlow cfg c call := by
+  have h1 : handleRefund_steps = [.transferCoins .refund, .returnIfFromMsg, .transferTokens .refund .refund] := rfl
+  have h2 : transferTokens_fx_steps = [.skipIfSame, .sendCoins .sender .receiver] := rfl
+  have h3 : transferTokens_other_steps = [.convertCoin .sender .receiver] := rfl
+  rw [h1, h2, h3]
+  simp only [runRefund, rfAddr, refundFlow, bind, Except.bind, pure, Except.pure, transferTokens_eq, List.nil_append]
+  cases tokensFlow cfg c call.tokens (fun k g n => bridgeCallRefundCoin k g c (U call.refund) n) with
+  | error e => rfl
+  | ok fl1 =>
+    simp only []
+    cases call.fromMsg with
+    | true => simp
+    | false =>
+      simp only [Bool.false_eq_true, ↓reduceIte]
+
+open FxVerif.Gen.C04 in
+/-- **`msg.value` of a precompile call**: `valueIn` is the EVM's value transfer to the precompile account followed by exactly
+the two bank calls of `handlerOriginToken` as written (precompile account → evm module account → sender), interpreted
+under `envValue` -/
+theorem value_in_follows_code (g : Nat) (s : Addr) (n : Nat) :
+    (valueIn g s n).head? = some (.send (.base g) s precompileAcc n) ∧
+    interp (envValue g s) n handlerOriginToken_sigs = some ((valueIn g s n).drop 1) := ⟨rfl, rfl⟩
+
+/-- **which tokens the refund of an outgoing bridge call mints**: `bridgeCallTransferCoins` with the regenerated guard of its
+`mintCoins.Add` (tokens that are NOT origin / converted: module-owned pairs) is the model's `bridgeCallRefundCoin`, for every kind -/
+theorem refund_mint_guard_follows_code (k : Kind) (g c : Nat) (r : Addr) (n : Nat) :
+    refundCoinWith FxVerif.Gen.C04.bridgeCallTransferCoins_mintGuard k g c r n = some (bridgeCallRefundCoin k g c r n) := by
+  cases k <;> rfl
+
+/-- … and the polarity matters: with the negation lost the refund of FX mints fresh FX instead of releasing the locked ones,
+and a module-owned token is paid out of the escrow that backs the coins in circulation -/
+example : refundCoinWith .origin .fx 0 0 (U 1) 5 = some [.mint (.base 0) (M 0) (M 0) 5, .send (.base 0) (M 0) (U 1) 5] ∧
+    (refundCoinWith .origin .moduleOwned 1 0 (U 1) 5).map (·.head?) = some (some (.send (.bridge 1 0) (M 0) (U 1) 5)) := ⟨rfl, rfl⟩
+
+/-- `OutgoingTxBatchExecuted` with the regenerated argument of its cancel call is the model's `executedWith` (the batches the
+guard selects are the ones cancelled) -/
+theorem executed_cancels_the_iterated_batch (cs : ChainSt) (g nonce : Nat) :
+    executedWithArg cancelRule FxVerif.Gen.C04.executedCancelArg cs g nonce = some (executedWith cancelRule cs g nonce) := rfl
+
+/-- … and the argument matters: with `batch.BatchNonce` (the EXECUTED batch's nonce) in the cancel call, executing the newer of
+two batches of one token puts the executed batch's transfers back into the pool and leaves the older batch stored — 15 stay
+in flight although 9 were paid out on the external chain; with the iterated batch's nonce 6 stay (the older batch's
+transfers, refundable) -/
+theorem executed_cancelling_the_executed_batch_loses_value :
+    let b1 : Batch := ⟨1, 1, [⟨1, 0, 1, 5, 1, false⟩]⟩
+    let b2 : Batch := ⟨2, 1, [⟨2, 0, 1, 7, 2, false⟩]⟩
+    let cs : ChainSt := { batches := [b2, b1], created := [b2, b1], nextBatch := 3, nextTx := 3 }
+    (match executedWithArg cancelRule .executed cs 1 2, executedWithArg cancelRule .iter cs 1 2 with
+     | some bad, some good =>
+       decide (chainInFlight 1 cs = 15 ∧ chainInFlight 1 bad = 15 ∧ bad.pool = b2.txs ∧ bad.batches = [b1] ∧
+         chainInFlight 1 good = 6 ∧ good.pool = b1.txs ∧ good.batches = [])
+     | _, _ => false) = true := by decide
+
+/-- **context and order of the handler's statements matter** (witness on `cfgW`, user 0 holds 10 of group 1 and is the refund
+address of a failing inbound call carrying 4): with the source list everybody nets to zero; with the credit moved INSIDE the
+cache context it is dropped with the failed EVM part and the hand-over finds nothing (the claim cannot be executed); with the
+hand-over missing the refund is taken out of the refund address' own 10 and the 4 stay with the failing contract -/
+theorem handler_order_matters :
+    let s := runOps cfgW (init ledgerW) [.deposit 0 1 0 10 false]
+    let e : HEnv := ⟨badContract, U 0⟩
+    let credited_in_cache : List HStep := [.openCache, .credit true .receiver, .evm true .receiver, .commitIfOk,
+      .handOver false true .receiver .refund, .refundOut false .refund .refund]
+    let no_hand_over : List HStep := [.credit false .receiver, .openCache, .evm true .receiver, .commitIfOk,
+      .refundOut false .refund .refund]
+    (match handlerFlow cfgW 0 [(1, 4)] e false handlerSteps, handlerFlow cfgW 0 [(1, 4)] e false credited_in_cache,
+        handlerFlow cfgW 0 [(1, 4)] e false no_hand_over with
+     | .ok good, .ok bad1, .ok bad2 =>
+       (match runFlow good.1 s.L, runFlow bad1.1 s.L, runFlow bad2.1 s.L with
+        | .ok Lg, .error .insufficient, .ok L2 =>
+          decide (Lg.bal (.base 1) (U 0) = 10 ∧ Lg.bal (.base 1) badContract = 0 ∧
+            L2.bal (.base 1) (U 0) = 6 ∧ L2.bal (.base 1) badContract = 4)
+        | _, _, _ => false)
+     | _, _, _ => false) = true := by decide
+
+/-- non-vacuity of `failing_inbound_call_is_bcinfail` / `inbound_call_failure_follows_code`: a claim with two tokens (groups 1 and
+2 on chain 0) has both flows, they are different lists of the same 22 primitives, and the recorded call is (0, 0) -/
+example :
+    (match failFlowInOrder cfgW 0 0 [(1, 4), (2, 3)], opFlow cfgW (init ledgerW) (.bcinfail 0 0 [(1, 4), (2, 3)]),
+        handlerFlow cfgW 0 [(1, 4), (2, 3)] ⟨badContract, U 0⟩ false handlerSteps with
+     | .ok x, .ok y, .ok z => decide (x ≠ y ∧ x.length = 22 ∧ y.length = 22 ∧ z.1 = x ∧ z.2 = some (U 0, U 0))
+     | _, _, _ => false) = true := by decide
+
+/-- non-vacuity of `outgoing_refund_follows_code` / `inbound_call_success_follows_code`: a precompile-originated call with a
+module-owned token has a 7-primitive refund flow ending in the ERC-20 mint; a succeeding inbound call has a 7-primitive one -/
+example :
+    (match refundFlow cfgW 0 ⟨1, 1, 1, [(1, 10)], false⟩, opFlow cfgW (init ledgerW) (.bcin 0 1 [(1, 5)]) with
+     | .ok a, .ok b => decide (a.length = 7 ∧ a.getLast? = some (.mint (.erc 1) E (U 1) 10) ∧ b.length = 7)
      | _, _ => false) = true := by decide
 
 end FxVerif.Props.C04
